@@ -76,6 +76,71 @@ func targetStack() string {
 	return string(sb)
 }
 
+// fnInfo numbers the SSA values of one function (frame slots).
+type fnInfo struct {
+	idx map[ssa.Value]int
+	n   int
+}
+
+func (i *interpreter) infoOf(fn *ssa.Function) *fnInfo {
+	if inf, ok := i.infos[fn]; ok {
+		return inf
+	}
+	inf := &fnInfo{idx: map[ssa.Value]int{}}
+	add := func(v ssa.Value) {
+		if _, ok := inf.idx[v]; !ok {
+			inf.idx[v] = inf.n
+			inf.n++
+		}
+	}
+	for _, p := range fn.Params {
+		add(p)
+	}
+	for _, fv := range fn.FreeVars {
+		add(fv)
+	}
+	for _, l := range fn.Locals {
+		add(l)
+	}
+	for _, b := range fn.Blocks {
+		for _, ins := range b.Instrs {
+			if v, ok := ins.(ssa.Value); ok {
+				add(v)
+			}
+		}
+	}
+	if fn.Recover != nil {
+		for _, ins := range fn.Recover.Instrs {
+			if v, ok := ins.(ssa.Value); ok {
+				add(v)
+			}
+		}
+	}
+	if i.infos == nil {
+		i.infos = map[*ssa.Function]*fnInfo{}
+	}
+	i.infos[fn] = inf
+	return inf
+}
+
+func (i *interpreter) constOf(c *ssa.Const) value {
+	if v, ok := i.consts[c]; ok {
+		return v
+	}
+	v := constValue(c)
+	if c.Value != nil {
+		if i.consts == nil {
+			i.consts = map[*ssa.Const]value{}
+		}
+		i.consts[c] = v
+	}
+	return v
+}
+
+func (fr *frame) set(instr ssa.Value, v value) {
+	fr.env[fr.info.idx[instr]] = v
+}
+
 type continuation int
 
 const (
@@ -107,6 +172,8 @@ type interpreter struct {
 	sizes              types.Sizes            // the effective type-sizing function
 	goroutines         int32                  // atomically updated
 	extCache           map[*ssa.Function]externalFn
+	infos              map[*ssa.Function]*fnInfo
+	consts             map[*ssa.Const]value
 	workFn             map[*ssa.Function]bool
 }
 
@@ -122,7 +189,8 @@ type frame struct {
 	caller           *frame
 	fn               *ssa.Function
 	block, prevBlock *ssa.BasicBlock
-	env              map[ssa.Value]value // dynamic values of SSA variables
+	env              []value // dynamic values of SSA variables, indexed by info.idx
+	info             *fnInfo
 	locals           []value
 	defers           *deferred
 	result           value
@@ -140,14 +208,14 @@ func (fr *frame) get(key ssa.Value) value {
 	case *ssa.Function, *ssa.Builtin:
 		return key
 	case *ssa.Const:
-		return constValue(key)
+		return fr.i.constOf(key)
 	case *ssa.Global:
 		if r, ok := fr.i.globals[key]; ok {
 			return r
 		}
 	}
-	if r, ok := fr.env[key]; ok {
-		return r
+	if ix, ok := fr.info.idx[key]; ok {
+		return fr.env[ix]
 	}
 	panic(fmt.Sprintf("get: no value for %T: %v", key, key.Name()))
 }
@@ -219,9 +287,9 @@ func visitInstr(fr *frame, instr ssa.Instruction) continuation {
 
 	case *ssa.UnOp:
 		if sx, ok := fr.get(instr.X).(symv); ok {
-			fr.env[instr] = symUnop(instr.Op, sx)
+			fr.set(instr, symUnop(instr.Op, sx))
 		} else {
-			fr.env[instr] = unop(instr, fr.get(instr.X))
+			fr.set(instr, unop(instr, fr.get(instr.X)))
 		}
 
 	case *ssa.BinOp:
@@ -230,42 +298,42 @@ func visitInstr(fr *frame, instr ssa.Instruction) continuation {
 			if instr.Op == token.QUO || instr.Op == token.REM {
 				divGuard(by)
 			}
-			fr.env[instr] = symBinop(instr.Op, instr.X.Type(), instr.Y.Type(), bx, by)
+			fr.set(instr, symBinop(instr.Op, instr.X.Type(), instr.Y.Type(), bx, by))
 		} else if isSymAgg(bx) || isSymAgg(by) {
 			noteSym(fr)
-			fr.env[instr] = symAggBinop(instr.Op, instr.X.Type(), bx, by)
+			fr.set(instr, symAggBinop(instr.Op, instr.X.Type(), bx, by))
 		} else {
-			fr.env[instr] = binop(instr.Op, instr.X.Type(), bx, by)
+			fr.set(instr, binop(instr.Op, instr.X.Type(), bx, by))
 		}
 
 	case *ssa.Call:
 		fn, args := prepareCall(fr, &instr.Call)
-		fr.env[instr] = call(fr.i, fr, instr.Pos(), fn, args)
+		fr.set(instr, call(fr.i, fr, instr.Pos(), fn, args))
 
 	case *ssa.ChangeInterface:
-		fr.env[instr] = fr.get(instr.X)
+		fr.set(instr, fr.get(instr.X))
 
 	case *ssa.ChangeType:
-		fr.env[instr] = fr.get(instr.X) // (can't fail)
+		fr.set(instr, fr.get(instr.X)) // (can't fail)
 
 	case *ssa.Convert:
 		if sx, ok := fr.get(instr.X).(symv); ok {
-			fr.env[instr] = symConv(instr.Type(), sx)
+			fr.set(instr, symConv(instr.Type(), sx))
 		} else {
-			fr.env[instr] = conv(instr.Type(), instr.X.Type(), fr.get(instr.X))
+			fr.set(instr, conv(instr.Type(), instr.X.Type(), fr.get(instr.X)))
 		}
 
 	case *ssa.SliceToArrayPointer:
-		fr.env[instr] = sliceToArrayPointer(instr.Type(), instr.X.Type(), fr.get(instr.X))
+		fr.set(instr, sliceToArrayPointer(instr.Type(), instr.X.Type(), fr.get(instr.X)))
 
 	case *ssa.MakeInterface:
-		fr.env[instr] = iface{t: instr.X.Type(), v: fr.get(instr.X)}
+		fr.set(instr, iface{t: instr.X.Type(), v: fr.get(instr.X)})
 
 	case *ssa.Extract:
-		fr.env[instr] = fr.get(instr.Tuple).(tuple)[instr.Index]
+		fr.set(instr, fr.get(instr.Tuple).(tuple)[instr.Index])
 
 	case *ssa.Slice:
-		fr.env[instr] = slice(fr.get(instr.X), fr.get(instr.Low), fr.get(instr.High), fr.get(instr.Max))
+		fr.set(instr, slice(fr.get(instr.X), fr.get(instr.Low), fr.get(instr.High), fr.get(instr.Max)))
 
 	case *ssa.Return:
 		switch len(instr.Results) {
@@ -333,17 +401,17 @@ func visitInstr(fr *frame, instr ssa.Instruction) continuation {
 		}()
 
 	case *ssa.MakeChan:
-		fr.env[instr] = make(chan value, asInt64(fr.get(instr.Size)))
+		fr.set(instr, make(chan value, asInt64(fr.get(instr.Size))))
 
 	case *ssa.Alloc:
 		var addr *value
 		if instr.Heap {
 			// new
 			addr = new(value)
-			fr.env[instr] = addr
+			fr.set(instr, addr)
 		} else {
 			// local
-			addr = fr.env[instr].(*value)
+			addr = fr.env[fr.info.idx[instr]].(*value)
 		}
 		*addr = zero(mustDeref(instr.Type()))
 
@@ -353,7 +421,7 @@ func visitInstr(fr *frame, instr ssa.Instruction) continuation {
 		for i := range slice {
 			slice[i] = zero(tElt)
 		}
-		fr.env[instr] = slice[:asInt64(fr.get(instr.Len))]
+		fr.set(instr, slice[:asInt64(fr.get(instr.Len))])
 
 	case *ssa.MakeMap:
 		var reserve int64
@@ -363,19 +431,19 @@ func visitInstr(fr *frame, instr ssa.Instruction) continuation {
 		if !fitsInt(reserve, fr.i.sizes) {
 			panic(fmt.Sprintf("ssa.MakeMap.Reserve value %d does not fit in int", reserve))
 		}
-		fr.env[instr] = makeMap(instr.Type().Underlying().(*types.Map).Key(), reserve)
+		fr.set(instr, makeMap(instr.Type().Underlying().(*types.Map).Key(), reserve))
 
 	case *ssa.Range:
-		fr.env[instr] = rangeIter(fr.get(instr.X))
+		fr.set(instr, rangeIter(fr.get(instr.X)))
 
 	case *ssa.Next:
-		fr.env[instr] = fr.get(instr.Iter).(iter).next()
+		fr.set(instr, fr.get(instr.Iter).(iter).next())
 
 	case *ssa.FieldAddr:
-		fr.env[instr] = &(*fr.get(instr.X).(*value)).(structure)[instr.Field]
+		fr.set(instr, &(*fr.get(instr.X).(*value)).(structure)[instr.Field])
 
 	case *ssa.Field:
-		fr.env[instr] = fr.get(instr.X).(structure)[instr.Field]
+		fr.set(instr, fr.get(instr.X).(structure)[instr.Field])
 
 	case *ssa.IndexAddr:
 		x := fr.get(instr.X)
@@ -385,24 +453,24 @@ func visitInstr(fr *frame, instr ssa.Instruction) continuation {
 			if si, ok := idx.(symv); ok {
 				noteSym(fr)
 				if onlyLoaded(instr) {
-					fr.env[instr] = &x[symIndex(si, x)]
+					fr.set(instr, &x[symIndex(si, x)])
 				} else {
-					fr.env[instr] = &x[asInt64(si)]
+					fr.set(instr, &x[asInt64(si)])
 				}
 			} else {
-				fr.env[instr] = &x[asInt64(idx)]
+				fr.set(instr, &x[asInt64(idx)])
 			}
 		case *value: // *array
 			if si, ok := idx.(symv); ok {
 				noteSym(fr)
 				arr := (*x).(array)
 				if onlyLoaded(instr) {
-					fr.env[instr] = &arr[symIndex(si, arr)]
+					fr.set(instr, &arr[symIndex(si, arr)])
 				} else {
-					fr.env[instr] = &arr[asInt64(si)]
+					fr.set(instr, &arr[asInt64(si)])
 				}
 			} else {
-				fr.env[instr] = &(*x).(array)[asInt64(idx)]
+				fr.set(instr, &(*x).(array)[asInt64(idx)])
 			}
 		default:
 			panic(fmt.Sprintf("unexpected x type in IndexAddr: %T", x))
@@ -415,9 +483,9 @@ func visitInstr(fr *frame, instr ssa.Instruction) continuation {
 		switch x := x.(type) {
 		case array:
 			if si, ok := idx.(symv); ok {
-				fr.env[instr] = x[symIndex(si, x)]
+				fr.set(instr, x[symIndex(si, x)])
 			} else {
-				fr.env[instr] = x[asInt64(idx)]
+				fr.set(instr, x[asInt64(idx)])
 			}
 		case string:
 			if si, ok := idx.(symv); ok {
@@ -425,22 +493,22 @@ func visitInstr(fr *frame, instr ssa.Instruction) continuation {
 				for i := 0; i < len(x); i++ {
 					cells[i] = x[i]
 				}
-				fr.env[instr] = x[symIndex(si, cells)]
+				fr.set(instr, x[symIndex(si, cells)])
 			} else {
-				fr.env[instr] = x[asInt64(idx)]
+				fr.set(instr, x[asInt64(idx)])
 			}
 		case symstr:
 			if si, ok := idx.(symv); ok {
-				fr.env[instr] = x[symIndex(si, []value(x))]
+				fr.set(instr, x[symIndex(si, []value(x))])
 			} else {
-				fr.env[instr] = x[asInt64(idx)]
+				fr.set(instr, x[asInt64(idx)])
 			}
 		default:
 			panic(fmt.Sprintf("unexpected x type in Index: %T", x))
 		}
 
 	case *ssa.Lookup:
-		fr.env[instr] = lookup(instr, fr.get(instr.X), fr.get(instr.Index))
+		fr.set(instr, lookup(instr, fr.get(instr.X), fr.get(instr.Index)))
 
 	case *ssa.MapUpdate:
 		m := fr.get(instr.Map)
@@ -459,14 +527,14 @@ func visitInstr(fr *frame, instr ssa.Instruction) continuation {
 		}
 
 	case *ssa.TypeAssert:
-		fr.env[instr] = typeAssert(instr, fr.get(instr.X).(iface))
+		fr.set(instr, typeAssert(instr, fr.get(instr.X).(iface)))
 
 	case *ssa.MakeClosure:
 		var bindings []value
 		for _, binding := range instr.Bindings {
 			bindings = append(bindings, fr.get(binding))
 		}
-		fr.env[instr] = &closure{instr.Fn.(*ssa.Function), bindings}
+		fr.set(instr, &closure{instr.Fn.(*ssa.Function), bindings})
 
 	case *ssa.Phi:
 		log.Fatal("unreachable") // phis are processed at block entry
@@ -512,7 +580,7 @@ func visitInstr(fr *frame, instr ssa.Instruction) continuation {
 				r = append(r, v)
 			}
 		}
-		fr.env[instr] = r
+		fr.set(instr, r)
 
 	default:
 		panic(fmt.Sprintf("unexpected instruction: %T", instr))
@@ -627,18 +695,19 @@ func callSSA(i *interpreter, caller *frame, callpos token.Pos, fn *ssa.Function,
 		panic("interp requires ssa.BuilderMode to include InstantiateGenerics to execute generics")
 	}
 
-	fr.env = make(map[ssa.Value]value)
+	fr.info = i.infoOf(fn)
+	fr.env = make([]value, fr.info.n)
 	fr.block = fn.Blocks[0]
 	fr.locals = make([]value, len(fn.Locals))
 	for i, l := range fn.Locals {
 		fr.locals[i] = zero(mustDeref(l.Type()))
-		fr.env[l] = &fr.locals[i]
+		fr.env[fr.info.idx[l]] = &fr.locals[i]
 	}
 	for i, p := range fn.Params {
-		fr.env[p] = args[i]
+		fr.env[fr.info.idx[p]] = args[i]
 	}
 	for i, fv := range fn.FreeVars {
-		fr.env[fv] = env[i]
+		fr.env[fr.info.idx[fv]] = env[i]
 	}
 	savedFr := curFr
 	curFr = fr
@@ -751,7 +820,7 @@ func executePhis(fr *frame) []ssa.Instruction {
 			fr.phitemps = append(fr.phitemps, fr.get(phi.Edges[predIndex]))
 		}
 		for i, phi := range phis {
-			fr.env[phi.(*ssa.Phi)] = fr.phitemps[i]
+			fr.env[fr.info.idx[phi.(*ssa.Phi)]] = fr.phitemps[i]
 		}
 	}
 	return nonPhis
